@@ -551,6 +551,24 @@ def check(ctx):
         except Exception as e:  # noqa
             return "exc " + type(e).__name__
 
+    CONSTS = [c for c in real.tokens.CONST_TOKENS]
+
+    def glue_safe(a, b):
+        """two adjacent lexemes that need NO whitespace between them by the token table alone: neither end is a word / number /
+        quote character, and no constant token longer than one character can be read across the seam"""
+        wordish = lambda ch: ch.isalnum() or ch in "_.\"#'$€£¥μ"
+        if wordish(a[-1]) or wordish(b[0]) or a in ("to", "in") or b in ("to", "in"):
+            return False
+        seam = a + b
+        for c in CONSTS:
+            if len(c) >= 2:
+                for k in range(1, len(c)):
+                    if a.endswith(c[:k]) and b.startswith(c[k:]):
+                        return False
+                if c in seam and c not in (a, b) and not (c in a or c in b):
+                    return False
+        return True
+
     def lex_as(intended, rng_):
         """text with random whitespace that the real tokeniser splits into exactly the intended tokens"""
         want = [(t[0], numtok(t[1]) if (t[0] == "number" and isinstance(t[1], str)) else t[1]) for t in intended]
@@ -559,6 +577,21 @@ def check(ctx):
             try:
                 toks = tokenise(text)
             except Exception:  # noqa
+                toks = None
+            if toks is None or len(toks) != len(want):
+                if attempt is not None:
+                    # whitespace is optional between operator / punctuation tokens that cannot fuse: dropping it there must not
+                    # change the token sequence (the retry below with single spaces is only for seams that DO need a separator)
+                    sp = [spell(t) for t in intended]
+                    packed = "".join(sp[i] + ("" if i + 1 < len(sp) and glue_safe(sp[i], sp[i + 1]) else " ") for i in range(len(sp)))
+                    try:
+                        pt = tokenise(packed)
+                    except Exception as e:  # noqa
+                        pt = type(e).__name__
+                    if not isinstance(pt, list) or len(pt) != len(want):
+                        ctx.violation("ws-between-tokens:" + packed[:120], packed, "the %d tokens of %r" % (len(want), " ".join(sp)[:160]),
+                                      ("%d tokens" % len(pt)) if isinstance(pt, list) else pt,
+                                      "ka.tokens.tokenise(%r) against the same tokens separated by single spaces" % packed)
                 continue
             got = []
             for t in toks:
